@@ -282,8 +282,10 @@ func filterIgnored(
 				// only be used by tests, in which case an
 				// ignore would only fire when not analyzing
 				// tests. To avoid spurious "useless ignore"
-				// warnings, just never flag U1000.
-				return false
+				// warnings, just never flag U1000. Other checks
+				// named by the same directive are still
+				// considered, whatever their order.
+				continue
 			}
 
 			// Even though the runner always runs all analyzers, we
